@@ -45,6 +45,16 @@ Definition src_check_all (op : sval) : list sval :=
       if (o =? "dec") || (o =? "inflated") || (o =? "scribble") then
         match dec_by_name n b with Some m => cmp "unmarshal" m (GoSrc.src_unmarshal n b) | None => [] end
       else []
+  | SL [SY o; SY n; SL bs] =>
+      if o =? "decs" then
+        flat_map (fun x => match x with
+                           | SB b => match dec_by_name n b with Some m => cmp "unmarshal" m (GoSrc.src_unmarshal n b) | None => [] end
+                           | _ => [] end) bs
+      else []
+  | SL [SY o; SY n; SB b; _] =>
+      if o =? "variant" then
+        match dec_by_name n b with Some m => cmp "unmarshal" m (GoSrc.src_unmarshal n b) | None => [] end
+      else []
   | SL [SY o; SL (SY n :: fields)] =>
       if o =? "encu" then
         match encu (SL (SY n :: fields)) with Some m => cmp "marshal" m (GoSrc.src_marshal n fields) | None => [] end
